@@ -12,7 +12,7 @@
       argument and nothing else."""
 import re
 from registry import RuleResult
-from heval import Evaluator, Policy, EvalError, sym, show, norm_path, local_policy
+from heval import Evaluator, Policy, EvalError, sym, show, norm_path, local_policy, subterms
 from cfg import Cfg, callee_name, operand_place
 from mirutil import calls_to, where
 
@@ -191,11 +191,25 @@ def accessor_worlds(F, res, accessors):
                     bad = 'is not `inner.len() - dead.len()` (%s)' % show(w.value)[:80]
             elif name == 'iter':
                 el = [t for t, v in da if v is False and 'elem' in show(t)]
+                wv = w.value
+                if isinstance(wv, tuple) and wv and wv[0] == 'ctor' and F.adt(wv[1]) and F.adt(wv[1]).get('local'):
+                    # a named iterator struct: what it hands out is decided by its `next`
+                    nx = [k for k in F.hir if re.match(r'^<%s(<.*?>)? as std::iter::Iterator>::next$' % re.escape(wv[1]), k)]
+                    if nx:
+                        accessor_worlds(F, res, {'iter.next': nx[0]})
+                        continue
                 if mentions(w.value, INNER) and not el:
                     bad = 'yields entries of the inner arena that were not tested against `dead`'
-            elif name == 'iter_mut.next':
+            elif name.endswith('.next'):
                 v = w.value
-                if isinstance(v, tuple) and v[0] == 'call' and v[1].endswith('Iterator::next'):
+                produced = [t for t in subterms(v) if isinstance(t, tuple) and t and t[0] == 'call' and t[1].endswith('Iterator::next')
+                            and mentions(t, INNER)] if isinstance(v, tuple) else []
+                if isinstance(v, tuple) and v and v[0] == 'ctor' and v[2] == 'Some' and produced:
+                    # the entry is rebuilt from the inner iterator's item (`Some((id, item))`): that item must have been tested
+                    tested = [t for t, tv in da if tv is False and any(mentions(t, x) for x in produced)]
+                    if not tested:
+                        bad = 'can return the entry produced by %s without testing it against `dead`' % show(produced[0])
+                elif isinstance(v, tuple) and v[0] == 'call' and v[1].endswith('Iterator::next'):
                     asm = dict((show(k), x) for k, x in w.assumptions if not (isinstance(k, tuple) and k and k[0] == 'atom'))
                     st = asm.get(show(v))
                     is_none = st is not None and 'None' in show(st)
